@@ -8,7 +8,7 @@ use signalo_traits::{Filter, IntoGuts, WithConfig};
 pub fn gen06(tier: &str, rng: &mut Rng) -> Vec<Spec> {
     let t = tier == "thorough"; let mut v = vec![];
     let mk = |r: Rat, q: Rat, a: Rat, b: Rat, c: Rat, plain: bool, zs: &[Rat], us: &[Rat]| Spec::new("kalman").with("r", r.show()).with("q", q.show()).with("a", a.show()).with("b", b.show()).with("c", c.show())
-        .with("plain", plain as u8).with("zs", join_rats(zs)).with("us", join_rats(us));
+        .with("plain", plain as u8).with("cov0", "0").with("zs", join_rats(zs)).with("us", join_rats(us));
     let h = |n: i128, d: i128| Rat::new(n, d);
     // convex configurations (a = c = 1, b = 0): grid of (r, q), all small measurement histories
     for r in [h(0, 1), h(1, 2), h(1, 1), h(3, 1)] { for q in [h(1, 4), h(1, 1), h(2, 1)] {
@@ -21,6 +21,10 @@ pub fn gen06(tier: &str, rng: &mut Rng) -> Vec<Spec> {
             v.push(mk(r, q, a, b, c, false, &zs, &us));
             v.push(mk(r, q, a, b, c, true, &zs, &[h(0, 1); 3]));
         } } } } }
+    // states built through FromGuts with no value yet but a stale covariance: the first sample must overwrite it
+    for cov0 in [h(1000, 1), h(-3, 2), h(1, 7)] { for (r, q, a, b, c) in [(h(1, 1), h(1, 1), h(1, 1), h(0, 1), h(1, 1)), (h(1, 2), h(2, 1), h(1, 2), h(1, 1), h(2, 1))] {
+        for zs in small_hists(3) { let us = vec![Rat::int(1); 3];
+            let mut sp = mk(r, q, a, b, c, false, &zs, &us); for f in sp.fields.iter_mut() { if f.0 == "cov0" { f.1 = cov0.show(); } } v.push(sp); } } }
     for i in 0..(if t { 4000 } else { 500 }) {
         let len = rng.range(1, if t { 9 } else { 7 }) as usize;
         let zs = rand_hist(rng, len, 3);
@@ -38,14 +42,16 @@ pub fn exec06(s: &Spec, stats: &mut Stats) -> Outcome {
     let plain = s.usize("plain") == 1; let (zs, us) = (s.rats("zs"), s.rats("us"));
     stats.bump(format!("len:{}", zs.len())); stats.bump(if plain { "plain-form" } else { "control-form" });
     if cfg.a == Rat::int(1) && cfg.b == Rat::int(0) && cfg.c == Rat::int(1) { stats.bump("convex-config"); }
-    let mut f = kal::Kalman::with_config(cfg.clone());
+    let cov0 = if s.has("cov0") { s.rat("cov0") } else { Rat::int(0) };
+    if cov0 != Rat::int(0) { stats.bump("injected-stale-covariance"); }
+    let mut f = if cov0 == Rat::int(0) { kal::Kalman::with_config(cfg.clone()) } else { <kal::Kalman<Rat> as signalo_traits::FromGuts>::from_guts((cfg.clone(), kal::State { cov: cov0, value: None })) };
     let (mut ys, mut covs, mut panic) = (vec![], vec![], false);
     for (z, u) in zs.iter().zip(us.iter()) {
         let r = if plain { catch(|| f.filter(*z)) } else { catch(|| f.filter((*z, *u))) };
         match r { Ok(y) => { ys.push(y); covs.push(f.clone().into_guts().1.cov); } Err(_) => { panic = true; stats.panics += 1; break } }
     }
     let zus: Vec<(Rat, Rat)> = zs.iter().cloned().zip(us.iter().cloned()).collect();
-    Outcome::Case(format!("mk {{| kr := {}; kq := {}; ka := {}; kb := {}; kc := {} |}} {} {} {} {} {}", cq(&cfg.r), cq(&cfg.q), cq(&cfg.a), cq(&cfg.b), cq(&cfg.c),
-        cbool(plain), clist(&zus, |(z, u)| format!("({}, {})", cq(z), cq(u))), cqlist(&ys), cqlist(&covs), cbool(panic)))
+    Outcome::Case(format!("mk {{| kr := {}; kq := {}; ka := {}; kb := {}; kc := {} |}} {} {} {} {} {} {}", cq(&cfg.r), cq(&cfg.q), cq(&cfg.a), cq(&cfg.b), cq(&cfg.c),
+        cbool(plain), cq(&cov0), clist(&zus, |(z, u)| format!("({}, {})", cq(z), cq(u))), cqlist(&ys), cqlist(&covs), cbool(panic)))
 }
 
